@@ -347,13 +347,14 @@ def run_check(pid, tier, seed, assumptions):
 
     # ---- design check + behaviours
     cfgs = {("C06", False): ["OnChainMC.cfg"], ("C06", True): ["OnChainMCt.cfg"],
-            ("C07", False): ["OnChainMCh.cfg"], ("C07", True): ["OnChainMCht.cfg"]}[(pid, thorough)]
+            ("C07", False): ["OnChainMCh.cfg", "OnChainMCh3.cfg"], ("C07", True): ["OnChainMCht.cfg"]}[(pid, thorough)]
     mcs, scripts = [], []
     for cfg in cfgs:
         r = vlib.tlc_mc(pid, "OnChainMC", cfg, workers=12, timeout=3000 if thorough else 600)
         if r["violated"]:
             raise vlib.ToolError("design model violates %s in %s (spec needs correction)" % (r["violated"], cfg))
-        need = ["MReact", "MSpendable", "MSweep", "MCheck", "MBlockFair", "MFinal", "MReload"] + (["MBal"] if pid == "C07" else [])
+        need = ["MReact", "MSpendable", "MSweep", "MCheck", "MBlockFair", "MFinal"] + (["MBal"] if pid == "C07" else []) \
+            + ([] if cfg == "OnChainMCh3.cfg" else ["MReload"])
         vlib.require_coverage(r, need, cfg)
         got = vlib.tlc_printed(r["out"], "SCRIPT")
         if not any(o["op"] == "block" and o["cheat"] for s in got for o in s["ops"]) and pid == "C06":
@@ -365,8 +366,17 @@ def run_check(pid, tier, seed, assumptions):
         mcs.append((cfg, r))
     # prefer the behaviours in which the environment is active
     def weight(s):
-        return sum(2 if (o["op"] == "block" and o["cheat"]) else 1 if o["op"] in ("preimage", "reload") else 0 for o in s["ops"]) + len(s["shape"])
-    scripts.sort(key=lambda s: json.dumps(s, sort_keys=True))
+        w = len(s["shape"])
+        for o in s["ops"]:
+            if o["op"] == "block":
+                w += 2 if o["cheat"] else 0
+                # after the expiry only one side's transactions confirm: the races for contended outputs
+                w += 3 if (s["mode"] == "honest" and o["h"] >= 14 and len(o["who"]) == 1) else 0
+            else:
+                w += 1
+        return w
+    uniq = {json.dumps(s, sort_keys=True): s for s in scripts}
+    scripts = [uniq[k] for k in sorted(uniq)]
     rng.shuffle(scripts)
     scripts.sort(key=weight, reverse=True)
     cap = 1200 if thorough else 140
